@@ -260,7 +260,9 @@ static void oracle_c02_block(const std::string& type, const VerCfg& vc, const Sc
 // the first save of a fresh twin under the options accumulated so far: optimize = some save so far optimised, sort =
 // some save so far sorted.  One exception is left open: sorting BEFORE the first pruning (S ... O) - the order of the
 // survivors is then not required to be the order a sort after pruning would give; only repeatability is demanded there.
-static void c02_file_checks(const std::string& F, const std::string& keybase, const std::string& what, J cj, Stats& st) {
+// all_options = false (thorough tier, synthesised single-block files): of the histories that use a one-sided option set
+// only OO, SS and OS run; pruning and sorting have nothing to distinguish on a two-block file
+static void c02_file_checks(const std::string& F, const std::string& keybase, const std::string& what, J cj, Stats& st, bool all_options = true) {
 	canon::Canon refs[2][2];
 	bool have[2][2] = {{false, false}, {false, false}};
 	auto ref_for = [&](bool p, bool t) -> const canon::Canon* {
@@ -287,6 +289,7 @@ static void c02_file_checks(const std::string& F, const std::string& keybase, co
 	freeo.reachable_only = true;
 	for (auto& h : g_hists) {
 		if (vf::deadline_passed()) { st.capped("deadline inside C02 histories"); return; }
+		if (!all_options && h != "OO" && h != "SS" && h != "OS" && (h.find('O') != std::string::npos || h.find('S') != std::string::npos)) continue;
 		NifFile x;
 		if (s1::load(x, F) != 0) return;
 		st.add("histories");
@@ -364,7 +367,7 @@ static void c02_file_checks(const std::string& F, const std::string& keybase, co
 static void oracle_c02_file(const std::string& type, const VerCfg& vc, const Script& s, Stats& st) {
 	s1::Built b = s1::build_s1(type, vc, s, g_wide);
 	if (!b.ok) { st.add("file_not_built"); return; }
-	c02_file_checks(b.file, type + ":" + game_of(vc), vf::strf("%s (%s)", type.c_str(), vc.name), case_json(type, vc, s), st);
+	c02_file_checks(b.file, type + ":" + game_of(vc), vf::strf("%s (%s)", type.c_str(), vc.name), case_json(type, vc, s), st, false);
 }
 
 // ---------- C07 ----------
